@@ -2,6 +2,7 @@
 #include "../backend/interpreter/core/interpreter.h"
 #include "../common/ast.h"
 #include "../common/debug.h"
+#include "../common/stack_guard.h"
 
 // Recursive parser only
 #include "recursive_parser/recursive_parser.h"
@@ -14,7 +15,9 @@
 #include <fstream>
 #include <iostream>
 #include <memory>
+#include <pthread.h>
 #include <sstream>
+#include <sys/resource.h>
 #include <vector>
 #ifdef CB_VERIF
 #include "../backend/interpreter/evaluator/functions/generic_instantiation.h"
@@ -114,7 +117,8 @@ static int verif_subst_main() {
 }
 #endif
 
-int main(int argc, char **argv) {
+// The interpreter proper: runs on the big-stack thread created by main()
+static int run_interpreter(int argc, char **argv) {
 #ifdef CB_VERIF
     if (std::getenv("CB_VERIF_SUBST")) {
         return verif_subst_main();
@@ -284,4 +288,65 @@ int main(int argc, char **argv) {
 
     // ここには到達しない
     return 0;
+}
+
+// The parser and the interpreter are recursive (one chain of C++ frames per Cb
+// call level, nested statement or operator-chain term), so the default 8 MiB
+// main-thread stack is exhausted by a few hundred Cb call levels. Run
+// everything on a thread with a large stack - only address space is reserved,
+// pages are touched on demand - and enable the stack guard so that a recursion
+// that does not fit ends with a diagnostic instead of SIGSEGV.
+namespace {
+constexpr size_t kInterpreterStackSize = static_cast<size_t>(512) << 20;
+constexpr size_t kMinInterpreterStackSize = static_cast<size_t>(16) << 20;
+
+struct InterpreterThreadArgs {
+    int argc;
+    char **argv;
+    size_t stack_size;
+    int result;
+};
+
+void *interpreter_thread_main(void *p) {
+    auto *args = static_cast<InterpreterThreadArgs *>(p);
+    StackGuard::enable(args->stack_size);
+    // run_interpreter reports its own errors; most paths end the process
+    // with std::_Exit / std::exit from this thread
+    args->result = run_interpreter(args->argc, args->argv);
+    return nullptr;
+}
+} // namespace
+
+int main(int argc, char **argv) {
+    InterpreterThreadArgs args{argc, argv, 0, 1};
+
+    // smaller stacks are tried when the address space is limited (ulimit -v)
+    for (size_t size = kInterpreterStackSize; size >= kMinInterpreterStackSize;
+         size /= 2) {
+        pthread_attr_t attr;
+        if (pthread_attr_init(&attr) != 0) {
+            break;
+        }
+        pthread_t thread;
+        args.stack_size = size;
+        bool started =
+            pthread_attr_setstacksize(&attr, size) == 0 &&
+            pthread_create(&thread, &attr, interpreter_thread_main, &args) == 0;
+        pthread_attr_destroy(&attr);
+        if (started) {
+            pthread_join(thread, nullptr);
+            return args.result;
+        }
+    }
+
+    // no thread available: run on the main thread, whose stack also holds the
+    // arguments and the environment, hence only half of the limit is counted
+    struct rlimit limit;
+    size_t main_stack_size = static_cast<size_t>(8) << 20;
+    if (getrlimit(RLIMIT_STACK, &limit) == 0 &&
+        limit.rlim_cur != RLIM_INFINITY) {
+        main_stack_size = static_cast<size_t>(limit.rlim_cur);
+    }
+    StackGuard::enable(main_stack_size / 2);
+    return run_interpreter(argc, argv);
 }
